@@ -21,6 +21,8 @@ def replay(path):
 
 
 def extra(chk, info, res):
+    from checks import guards_common
+    guards_common.correspondence(chk, ['filtration_is_wintering'])
     from checks import winter_common
     winter_common.correspondence(chk, ('poll',))
     if info is not None:
